@@ -46,7 +46,7 @@ def pick_len(rng):
 class C16(Engine):
     prop = "C16"
     title = "naken_asm never crashes, hangs or corrupts memory"
-    quick_budget = 60
+    quick_budget = 45
     thorough_budget = 1200
     rule = ("run i = one forked naken_asm lifetime (real main(), ASan+UBSan) on a seeded SimFs workspace: corpus-based "
             "program for a seeded CPU wrapped in macros/.if/.repeat/.include/.binfile, plus 1-3 stressors drawn from "
